@@ -19,7 +19,8 @@ EXPLANATION = (
     "both VarType::is_extended implementations (DIM types, parameter types) answer the stated table on "
     "every variant, arrays following their element type.  (R9) where the default type of a bare name is computed and existing entries of the name are separated into suffix-style and AS-style ones, a suffix-style entry is taken for the bare name only after its type was compared with the default type."
     " (R12) every place of the declaration rules that makes the type of a new variable is dominated by a call that reaches the lookup collecting the entries of the name in the current scope and the SHARED ones of the module level in every style: a declaration in a SUB cannot take a name away from a SHARED variable."
-    " (R13) wherever a context holding the DEFtype letter table is built the table is a fresh one: every pass over the program starts from the default table.")
+    " (R13) wherever a context holding the DEFtype letter table is built the table is a fresh one: every pass over the program starts from the default table."
+    " (R14) among the checks the declaration rules run against the table of functions one is strict: a DIM cannot take the name of a FUNCTION.")
 NOT_DECIDED = ["the resolution outcome for arbitrary combinations of declarations (run of the converter)"]
 
 NAMES = "Names"
